@@ -354,3 +354,5 @@ ASSUMED_MODELS = ["os.path.abspath/join/splitdrive/isabs (uninterpreted)", "open
                   "archive_extractor._process_archive_entry (C01)", "archive_extractor._is_supported_file_cached (C07/C15)"]
 ASSUMPTIONS = ["PY-STR", "EXC-ANY", "what third-party extractors do with member *bytes* is outside this property's contracts",
                "OS-level races (symlink swaps in the temp dir by another process) are not modelled"]
+
+REPLAY_UNKNOWN = True    # undecided / out-of-subset items are searched natively (replay) before being reported UNDECIDED
